@@ -294,7 +294,7 @@ impl Profile for F3 {
         let fam = reg.family("f3");
         let data: Vec<&Entry> = fam.iter().copied().filter(|e| e.spec.has_tag("data")).collect();
         let mut codes = vec![];
-        let n = rng.range(2, 3);
+        let n = rng.range(2, 3 + crate::extra_contracts());
         for i in 0..n {
             let e: &Entry = if i == 0 && self.prop == "C09" && rng.chance(4, 5) {
                 *rng.pick(&data)
@@ -326,7 +326,7 @@ impl Profile for F3 {
     }
 
     fn gen_ops(&self, rng: &mut Rng, reg: &Reg, wp: &WorldPlan, base: &RunRecord) -> Vec<Op> {
-        let n = rng.range(1, 6);
+        let n = rng.range(1, 6 * crate::scale());
         let mut g = Gen {
             rng,
             reg,
